@@ -273,3 +273,58 @@ def oracle_mesh(mesh, X, T, glue, check_nbrs=True):
             if not is_bdr and not rep:
                 bad.append('neighbours: interior/seam side %d of %d reports no neighbour' % (side, e.glob_idx))
     return bad
+
+
+def gmsh_oracle(mesh):
+    """`Mesh.gmsh()` is the geometry callers export: its nodes must be the mesh vertices with their exact coordinates
+    (the text round-trips), its elements the leaves with their four corners, and the exported rectangles must tile the
+    cylinder like the leaves do.  Returns a list of problems (empty = fine)."""
+    from fractions import Fraction as Fr
+    bad = []
+    try:
+        with silence_stdout():
+            txt = mesh.gmsh()
+    except Exception as exc:  # noqa: BLE001
+        return ['gmsh: raises %r' % (exc, )]
+    lines = txt.split('\n')
+    try:
+        i = lines.index('$Nodes')
+        n = int(lines[i + 1])
+        nodes = {}
+        for ln in lines[i + 2:i + 2 + n]:
+            f = ln.split()
+            # coordinates are written with str(): exact for Fractions ('p/q'), round-trip decimal for binary64 values
+            nodes[int(f[0])] = tuple(Fr(tok) if '/' in tok else Fr(float(tok)) for tok in f[1:3])
+        j = lines.index('$Elements')
+        m = int(lines[j + 1])
+        elems = [[int(v) for v in ln.split()[5:9]] for ln in lines[j + 2:j + 2 + m]]
+    except Exception as exc:  # noqa: BLE001
+        return ['gmsh: output cannot be parsed (%r)' % (exc, )]
+    if n != len(mesh.vertices) or len(nodes) != n:
+        bad.append('gmsh: %d nodes exported, the mesh has %d vertices' % (len(nodes), len(mesh.vertices)))
+    for v in mesh.vertices:
+        got = nodes.get(v.idx + 1)
+        if got is None or got != (Fr(v.t), Fr(v.x)):
+            bad.append('gmsh: node %d exported as %r, the vertex is (%r, %r)' % (v.idx + 1, got and tuple(map(float, got)), v.t, v.x))
+            break
+    leaves = list(mesh.leaf_elements)
+    if m != len(leaves) or len(elems) != m:
+        bad.append('gmsh: %d elements exported, the mesh has %d leaves' % (len(elems), len(leaves)))
+    area = Fr(0)
+    for k, (e, ids) in enumerate(zip(leaves, elems)):
+        if ids != [w.idx + 1 for w in e.vertices]:
+            bad.append('gmsh: element %d has nodes %r, the leaf has %r' % (k + 1, ids, [w.idx + 1 for w in e.vertices]))
+            break
+        try:
+            c = [nodes[i_] for i_ in ids]
+            area += (c[2][0] - c[0][0]) * (c[2][1] - c[0][1])
+            if not (c[0][0] < c[2][0] and c[0][1] < c[2][1]):
+                bad.append('gmsh: exported element %d is degenerate: corners %r' % (k + 1, [tuple(map(float, q)) for q in c]))
+                break
+        except KeyError:
+            bad.append('gmsh: element %d refers to a missing node' % (k + 1))
+            break
+    want = sum((Fr(e.time_interval[1]) - Fr(e.time_interval[0])) * (Fr(e.space_interval[1]) - Fr(e.space_interval[0])) for e in leaves)
+    if not bad and area != want:
+        bad.append('gmsh: exported rectangles cover area %s, the leaves %s' % (float(area), float(want)))
+    return bad
